@@ -27,7 +27,8 @@ from fractions import Fraction
 
 from .. import core, gen
 
-RULE = ("histories over 4 slots of real Atoms objects; ops construct/copy/delete/pop/extend/replicate/getitem; valid "
+RULE = ("histories over 4 slots of real Atoms objects (about half of the structures have an atom type whose mass is not the "
+        "periodic-table mass of its element and whose label differs from the element); ops construct/copy/delete/pop/extend/replicate/getitem; valid "
         "stream = deletion indices distinct and inside the object, identity maps injective, extends compatible (per "
         "kind: neither side has a coefficient table, or every side with terms has one; explicit offsets only where "
         "the shifted ids denote identical table entries). One case = one history (bounded-exhaustive: one maximal op "
@@ -83,9 +84,32 @@ def retag(aj, tg, rng=None, tagcols=True):
     return aj
 
 
+def odd_mass(aj, rng, p=1.0):
+    """with probability p give one atom type (one that is in use, if any) a mass that is NOT the periodic-table
+    mass of its element (isotope / united-atom / dummy-site types) and a label different from the element, so that
+    "resolves to the mass it was defined with" cannot be satisfied by re-deriving masses from elements"""
+    t = aj["types"]
+    if not t["elem"] or rng.random() >= p:
+        return aj
+    used = sorted({r["ty"] for r in aj["atoms"] if r["ty"] < len(t["elem"])})
+    k = rng.choice(used) if used else rng.randrange(len(t["elem"]))
+    base = float(core.unq(t["mass"][k]))
+    t["mass"][k] = core.q(round(base + rng.choice([1.0063, 3.0243, 0.4375, 2.5, 7.25]), 4))
+    if t["label"][k] == t["elem"][k]:
+        t["label"] = list(t["label"])
+        t["label"][k] = "%sx%d" % (t["elem"][k], k + 1)
+    return aj
+
+
+def has_odd_mass(aj):
+    M = gen.masses()
+    t = aj["types"]
+    return any(e not in M or abs(float(core.unq(m)) - M[e]) > 0.1 for e, m in zip(t["elem"], t["mass"]))
+
+
 def rand_struct(rng, tg, nmax=8, **kw):
     n = rng.randint(1, nmax)
-    aj = gen.rand_atoms(rng, n=n, **kw)
+    aj = odd_mass(gen.rand_atoms(rng, n=n, **kw), rng, 0.5)
     if aj.get("cell") is not None and rng.random() < 0.75:
         # most cells LAMMPS-writable so that the save/load part of the property is exercised
         if not lammps_cell(aj["cell"]):
@@ -93,7 +117,7 @@ def rand_struct(rng, tg, nmax=8, **kw):
     return retag(aj, tg, rng, tagcols=rng.random() < 0.85)
 
 
-def mk(atoms, terms=None, types=None, xlabels=None, cell=None, elems=("C",), labels=None, pair=None):
+def mk(atoms, terms=None, types=None, xlabels=None, cell=None, elems=("C",), labels=None, pair=None, masses=None):
     """hand-made structure: atoms = [(ty, (x,y,z), group)], terms = {kind: [(tuple, ty)]}, types = {kind: [coeff]}"""
     M = gen.masses()
     j = {"cell": cell, "atoms": [{"ty": ty, "pos": [core.q(Fraction(v)) for v in pos], "q": "0", "g": g, "x": []}
@@ -107,7 +131,7 @@ def mk(atoms, terms=None, types=None, xlabels=None, cell=None, elems=("C",), lab
             t["x"] = ["x" for _ in j["xlabels"][k]]
     j["types"]["elem"] = list(elems)
     j["types"]["label"] = list(labels) if labels else list(elems)
-    j["types"]["mass"] = [core.q(M[e]) for e in elems]
+    j["types"]["mass"] = [core.q(M[e]) for e in elems] if masses is None else [core.q(m) for m in masses]
     j["types"]["pair"] = list(pair) if pair else []
     return j
 
@@ -123,17 +147,19 @@ def pool():
     # P1: everything: two bond types + unused third entry, an angle, pair table, labels != elements, cell
     P.append(("P1", mk(line3, {"bond": [((0, 1), 0), ((1, 2), 1)], "angle": [((0, 1, 2), 0)]},
                        {"bond": ["harm 1.0 # b0", "harm 2.0 # b1", "harm 3.0 # b2"], "angle": ["cos 5.0 # a0"]},
-                       cell=ORTHO, elems=("C", "H"), labels=("C_1", "H_2"), pair=["0.1 3.0 # C_1", "0.2 2.5 # H_2"])))
+                       cell=ORTHO, elems=("C", "H"), labels=("C_1", "D_2"), pair=["0.1 3.0 # C_1", "0.2 2.5 # D_2"],
+                       masses=(15.035, 2.0141))))     # united-atom carbon, deuterium: NOT the table masses of C / H
     # P2: same topology, no coefficient tables at all, no cell
     P.append(("P2", mk(line3, {"bond": [((0, 1), 0), ((1, 2), 1)], "angle": [((0, 1, 2), 0)]},
                        elems=("C", "H"))))
     # P3: bonds only, table exactly as long as the ids, triclinic cell, an extra column besides the tag
     P.append(("P3", mk(line3, {"bond": [((1, 0), 1), ((2, 1), 0)]}, {"bond": ["morse 1 # m0", "morse 2 # m1"]},
-                       xlabels={"bond": ["_geom_bond_aux"]}, cell=TRI, elems=("O", "Zr"), labels=("O_a", "Zr_b"))))
+                       xlabels={"bond": ["_geom_bond_aux"]}, cell=TRI, elems=("O", "Zr"), labels=("O_a", "Zr_b"),
+                       masses=(15.9994, 93.5))))
     # Q1: typed fragment with its own tables
     two = [(0, (5, 0, 0), 0), (0, (6, 0, 0), 1)]
     P.append(("Q1", mk(two, {"bond": [((0, 1), 0)]}, {"bond": ["harm 9.0 # q0"]}, elems=("N",), labels=("N_q",),
-                       pair=["0.3 3.3 # N_q"])))
+                       pair=["0.3 3.3 # N_q"], masses=(16.0225,))))     # united-atom NH2
     # Q2: fragment without tables
     P.append(("Q2", mk(two, {"bond": [((0, 1), 0)]}, elems=("N",))))
     # Q3: a single atom with a pair table and an (unused) bond table
@@ -141,7 +167,8 @@ def pool():
                        pair=["0.4 3.4 # F_s"])))
     # Q4: two types, bond of type 1 with a two-entry table, reversed tuple, no pair table, with cell
     P.append(("Q4", mk([(1, (5, 1, 0), 0), (0, (6, 1, 0), 0)], {"bond": [((1, 0), 1)]},
-                       {"bond": ["harm 4.0 # r0", "harm 5.0 # r1"]}, cell=ORTHO, elems=("S", "Cu"), labels=("S_r", "Cu_r"))))
+                       {"bond": ["harm 4.0 # r0", "harm 5.0 # r1"]}, cell=ORTHO, elems=("S", "Cu"), labels=("S_r", "Cu_r"),
+                       masses=(32.065, 64.9278))))      # an isotope mass for Cu
     return P
 
 
@@ -885,8 +912,10 @@ def directed(rng):
                 a = retag(gen.rand_atoms(rng, n=n, kinds=[kind] + ([rng.choice(KINDS)] if rep else []), coeffs=tables,
                                          pair=tables, extras=bool(rep % 2), cell=rng.choice(["ortho", "tri+", False]),
                                          label_style="tagged"), tg)
+                odd_mass(a, rng, 0.75)
                 b = retag(gen.rand_atoms(rng, n=rng.randint(ARITY[kind], 5), kinds=[kind], coeffs=tables, pair=tables,
                                          extras=bool(rep % 2), cell=False, label_style="tagged"), tg)
+                odd_mass(b, rng, 0.5)
                 kill = sorted({t["a"][rng.randrange(ARITY[kind])] for t in a["terms"][kind]})
                 rest = len(a["atoms"]) - len(kill)
                 m = rand_map(rng, len(b["atoms"]), rest) if rest else []
@@ -898,7 +927,10 @@ def directed(rng):
                        {"k": "extend", "dst": 2, "src": 1, "offsets": None, "map": []},
                        {"k": "extend", "dst": 2, "src": 0, "offsets": None, "map": []},
                        {"k": "replicate", "src": 2, "dst": 3, "dims": [1, 2, 1]},
-                       {"k": "pop", "slot": 2, "i": -1, "default": True}]
+                       {"k": "pop", "slot": 2, "i": -1, "default": True},
+                       {"k": "getitem", "src": 2, "dst": 3, "idx": [0]},
+                       {"k": "getitem", "src": 1, "dst": 3, "idx": list(range(len(b["atoms"])))[::-1]},
+                       {"k": "extend", "dst": 3, "src": 1, "offsets": None, "map": []}]
                 # dry run on the real code (no oracle) to keep only the ops that are valid where they stand
                 dry = [None] * NSLOTS
                 kept = []
@@ -1068,6 +1100,10 @@ def account(ctx, h, out, fail_at, what, stream):
     ctx.count("len:%d" % (10 * (len(h["ops"]) // 10)) if stream == "random" else "len:%d" % len(h["ops"]))
     for op in h["ops"]:
         ctx.count("op:" + op["k"])
+        if op["k"] == "construct":
+            ctx.count("construct:non-table-mass" if has_odd_mass(op["a"]) else "construct:table-masses")
+    if stream == "exhaustive":
+        ctx.count("init:non-table-mass" if any(a is not None and has_odd_mass(a) for a in h["init"]) else "init:table-masses")
     for f in flags:
         ctx.count(f)
     if what:
